@@ -132,7 +132,7 @@ type Explorer struct {
 	Capped     bool
 	Outcomes   map[string]int
 	Found      []Found
-	foundSigs  map[string]bool
+	foundSigs  map[string]int
 	Diverged   []string
 	SampleRuns [][]string
 	MaxDepth   int
@@ -157,7 +157,7 @@ func (e *Explorer) Explore(run func(c *Chooser) Outcome) {
 		e.visited = map[string]int{}
 	}
 	e.Outcomes = map[string]int{}
-	e.foundSigs = map[string]bool{}
+	e.foundSigs = map[string]int{}
 	stack := []work{{prefix: nil}}
 	top := 0
 	for len(stack) > 0 {
@@ -239,10 +239,12 @@ func (e *Explorer) account(c *Chooser, out Outcome) {
 		if i < len(out.Sigs) {
 			sig = out.Sigs[i]
 		}
-		if e.foundSigs[sig] {
+		// a few instances per signature: the first one found may depend on something the explorer does not own (it
+		// then fails its confirmation runs) while a later one with the same signature is reproducible
+		if e.foundSigs[sig] >= 3 {
 			continue
 		}
-		e.foundSigs[sig] = true
+		e.foundSigs[sig]++
 		e.Found = append(e.Found, Found{What: v, Sig: sig, Choices: c.Choices(), Trace: c.Trace(), Obs: out.Obs})
 	}
 }
